@@ -59,3 +59,14 @@ Print Assumptions C18_header_handoff_no_deadlock.
 Theorem C18_old_handoff_deadlock_refuted : hdeadlocks false false = [(1, 0)%nat].
 Proof. exact header_handoff_old_deadlocks_refuted. Qed.
 Print Assumptions C18_old_handoff_deadlock_refuted.
+
+(* the reference and the annotation in different coordinates (another length than the GenBank ORIGIN or the gff ##sequence-region,
+   or two ##sequence-region lines): refused by the one check both annotation-reading commands make since repair D21 *)
+Theorem C18_annotation_coordinates_refused : forall reflen a,
+  match a with GbOrigin n => reflen <> n | GffRegions [e] => reflen <> e | GffRegions [] => False | GffRegions _ => True end ->
+  coords_ok reflen a = false.
+Proof. exact coords_mismatch_refused. Qed.
+Print Assumptions C18_annotation_coordinates_refused.
+Theorem C18_old_sam_variants_coordinates_refuted : exists reflen a, coords_ok reflen a = false /\ old_sam_variants_coords reflen a = true.
+Proof. exact old_sam_variants_coords_refuted. Qed.
+Print Assumptions C18_old_sam_variants_coordinates_refuted.
